@@ -202,6 +202,9 @@ CheckEff(e, env) ==
             LET r == NotePure(e.args[1], env) s == r.sort en == r.env IN
             IF IsErr(s) THEN Fail(en, s.why)
             ELSE IF s.s = "ext" THEN Fail(en, "SETL " \o e.name \o " of a non-IL value")
+            \* locals owned by the plugin (assumption A5): the jump target is read back as the 32-bit PC, the flag as a boolean
+            ELSE IF e.name = "jump_target" /\ s # BVS(32) THEN Fail(en, "jump_target (the 32-bit PC) gets " \o ToString(s))
+            ELSE IF e.name = "jump_flag" /\ s # BOOLS THEN Fail(en, "jump_flag (a boolean) gets " \o ToString(s))
             ELSE IF e.name \in DOMAIN en.loc /\ en.loc[e.name] # s
                  THEN Fail(en, "local " \o e.name \o " changes sort from " \o ToString(en.loc[e.name]) \o " to " \o ToString(s))
             ELSE [en EXCEPT !.loc = (e.name :> s) @@ en.loc, !.avail = en.avail \cup {e.name}]
